@@ -32,7 +32,8 @@ func targets() []*target {
 			params: []string{"(g_inTesting : bool)", "(g_flags : Z)", "(lvl : Z)"}, result: "action", final: "ActContinue",
 			from: func(stmts []ast.Stmt) []ast.Stmt {
 				for i, s := range stmts {
-					if ifs, ok := s.(*ast.IfStmt); ok && containsText(ifs.Cond, "inTesting") {
+					// the first top-level `if` that can terminate (whatever its guard says)
+					if ifs, ok := s.(*ast.IfStmt); ok && (containsText(ifs, "panic(") || containsText(ifs, "os.Exit(")) {
 						return stmts[i:]
 					}
 				}
